@@ -392,6 +392,6 @@ def replay(rec):
         print(case, '->', detail)
         return ok
     print(json.dumps(rec, indent=1)[:2000])
-    ctx = core.Ctx('C05', 'quick', 0)
+    ctx = core.Ctx('C05', rec.get('tier', 'quick'), 0)
     run(ctx)
     return rec['key'] not in ctx._viol
